@@ -80,11 +80,20 @@ fn op_text(op: Op) -> String {
     format!("store(key{}, depth {}, payload {})", op.key, op.depth, op.payload)
 }
 
+/// Stores the table was seen to have dropped (a retrieve answered nothing although the map model
+/// holds an entry). The property allows a lookup to return nothing at any time (a bounded table
+/// that evicts, or declines a store, still satisfies it), so this is counted, not judged; the
+/// model then continues from what the table really holds.
+pub static DROPPED: std::sync::atomic::AtomicU64 = std::sync::atomic::AtomicU64::new(0);
+pub static ANSWERED: std::sync::atomic::AtomicU64 = std::sync::atomic::AtomicU64::new(0);
+
 /// Runs one sequence on a fresh table; after every operation compares every retrieve.
 fn run_sequence(seq: &[Op], ks: &[u64; N_KEYS + 1], pl: &[Payload; N_PAYLOADS]) -> Result<(), String> {
     let r = guard(|| {
         let mut tt = TranspositionTable::new();
         let mut model: Model = [None; N_KEYS];
+        let mut dropped = 0u64;
+        let mut answered = 0u64;
         for (i, op) in seq.iter().enumerate() {
             let p = pl[op.payload];
             tt.store(ks[op.key], p.eval, p.mv, op.depth, p.bounds);
@@ -95,9 +104,17 @@ fn run_sequence(seq: &[Op], ks: &[u64; N_KEYS + 1], pl: &[Payload; N_PAYLOADS]) 
                 let same = match (got, want) {
                     (None, None) => true,
                     (Some(e), Some((d, pi))) => {
+                        answered += 1;
                         e.hash_key == ks[k] && e.depth == d && e.eval == pl[pi].eval && e.best_move == pl[pi].mv && e.bounds == pl[pi].bounds
                     }
-                    _ => false,
+                    (None, Some(_)) => {
+                        // "either nothing or the data most recently accepted": nothing is always
+                        // a permitted answer; from here on the key counts as absent
+                        dropped += 1;
+                        model[k] = None;
+                        true
+                    }
+                    (Some(_), None) => false,
                 };
                 if !same {
                     return Err(format!(
@@ -111,6 +128,10 @@ fn run_sequence(seq: &[Op], ks: &[u64; N_KEYS + 1], pl: &[Payload; N_PAYLOADS]) 
                 }
             }
         }
+        if dropped > 0 {
+            DROPPED.fetch_add(dropped, std::sync::atomic::Ordering::Relaxed);
+        }
+        ANSWERED.fetch_add(answered, std::sync::atomic::Ordering::Relaxed);
         Ok(())
     });
     match r {
@@ -244,6 +265,9 @@ pub fn run(tier: &str, seed: u64, out: &str) {
         .set("alphabet", "store x {3 keys equal in their low 40 / low 63 bits} x {depth 0,1,2} x {3 payloads: Exact with a move, Upper without, Lower with another move}; after every operation retrieve on the 3 keys and on a never-stored key")
         .set("rule", format!("every sequence of exactly {} stores ({}^{}), each on a fresh real table, every step compared with a map model (replace iff new depth >= stored depth); plus every transition of the {}-state model graph replayed on a fresh real table", max_len, ops.len(), max_len, seen.len()))
         .set("exhaustive", true)
+        .set("retrieves_answered_with_an_entry", ANSWERED.load(std::sync::atomic::Ordering::Relaxed))
+        .set("retrieves_answered_with_nothing_although_the_model_holds_an_entry", DROPPED.load(std::sync::atomic::Ordering::Relaxed))
+        .set("note_on_dropped_entries", "a lookup may answer nothing at any time (the property allows it: a bounded table may evict or decline); such answers are counted above and the model continues from what the table holds. An answer that is an entry must be exactly the entry the map model holds for that key.")
         .set("samples", J::Arr(vec![
             J::Str(seq_arg(&[ops[0], ops[7], ops[3]])),
             J::Str("key0=".to_string() + &format!("{:#018x} key1={:#018x} key2={:#018x} never={:#018x}", ks[0], ks[1], ks[2], ks[3])),
